@@ -122,7 +122,17 @@ impl Prop for Bounded {
                 let cfg = Cfg::swarm(t);
                 let limit = LIMITS[t.draw(LIMITS.len() - 1)];
                 let dir = [Dir::InValid, Dir::InFiller, Dir::OutEmpty, Dir::OutAfterSmall, Dir::InBurst, Dir::OutPipeline][t.draw(6)];
-                let limit = if dir == Dir::OutPipeline { PIPE_LIMITS[t.draw(PIPE_LIMITS.len())] } else { limit };
+                // (one pipeline run in sixty-four works at tens of MiB, up to the production limit:
+                // a hundred thousand messages of about a kilobyte queued without a flush)
+                let limit = if dir == Dir::OutPipeline {
+                    if t.draw(64) == 63 {
+                        [(20usize << 20) + 256 * 5, (33 << 20) + 256 * 129, PRODUCTION][t.draw(3)]
+                    } else {
+                        PIPE_LIMITS[t.draw(PIPE_LIMITS.len())]
+                    }
+                } else {
+                    limit
+                };
                 let n = match t.draw(4) {
                     0 => 256 * (1 + t.draw(limit / 256 + 2)) + t.draw(7) - 3,
                     1 => limit + t.draw(7) - 3,
@@ -400,18 +410,18 @@ impl Prop for Bounded {
                     let mut w = world.borrow_mut();
                     let rd = w.scripted_pipe(&[], false);
                     let wr = w.sink_pipe();
-                    w.step_cap = 10_000;
+                    w.step_cap = 10_000 + l as u64 / 64;
                     (rd, wr)
                 };
                 // message sizes: a base size (bigger for big limits, to keep the count in the
                 // hundreds) varied per message by the tape
                 let base = out_wire_len(0);
-                let unit = (l / 150).clamp(40, 9000);
+                let unit = if l > (4 << 20) { 1000 } else { (l / 150).clamp(40, 9000) };
                 let sizes: Vec<usize> = {
                     let mut w = world.borrow_mut();
                     let mut v = Vec::new();
                     let mut total = 0usize;
-                    while total <= l + 3 * unit && v.len() < 4000 {
+                    while total <= l + 3 * unit && v.len() < if l > (4 << 20) { 400_000 } else { 4000 } {
                         let n = base + match w.tape.draw(4) {
                             0 => w.tape.draw(40),
                             1 => unit + w.tape.draw(7),
